@@ -132,7 +132,7 @@ Definition wellformed_for (k : rkind) (hw : bytes) (leased server : N) (p : byte
   (* message type, client identifier, maximum message size, parameter request list *)
   && byte_opt (o 53) (match k with RDiscover => 1 | _ => 3 end)
   && cid_wellformed hw (o 61)
-  && match o 57 with Some [_; _] => true | _ => false end
+  && match o 57 with Some [a; b] => 576 <=? a * 256 + b | _ => false end     (* RFC 2132 9.10: two octets, 576 is the least legal value *)
   && match o 55 with Some (_ :: _) => true | _ => false end
   (* per kind: addressing, ciaddr, requested address and server identifier *)
   && match k with
